@@ -218,7 +218,7 @@ class StreamWorld(World):
               "reconnect_within_linger", "reconnect_after_linger", "terminated_error", "client_local_closed",
               "streaming_disabled", "two_proxies", "concurrent_streams", "multiplex", "thread", "housekeeping_observed",
               "temp_proxy_close", "client_local_stop", "preempted", "raced",
-              "connection_dropped", "continued_after_drop", "concurrent_ops", "client_correlation_id", "disconnect_during_table_change", "chatter", "combined", "combined_slave_idle_expiry", "external_loop", "reply_lost", "continued_after_lost_reply", "fetch_during_disconnect", "stalled"]
+              "connection_dropped", "continued_after_drop", "concurrent_ops", "client_correlation_id", "disconnect_during_table_change", "chatter", "combined", "combined_slave_idle_expiry", "external_loop", "reply_lost", "continued_after_lost_reply", "fetch_during_disconnect", "stalled", "foreign_thread_close", "foreign_thread_finalize"]
     # also counted, but too schedule-dependent to demand: "fetch_before_old_disconnect", "expired_but_still_answers"
     RULE = ("plan = (server type, serializer, ITER_STREAMING on/off, ITER_STREAM_LIFETIME in {0,5,20}, ITER_STREAM_LINGER in "
             "{0,3,10}, 18% of the multiplex plans 'combined': the streams live on a second daemon served by the first one's loop (Daemon.combine), "
@@ -254,6 +254,9 @@ class StreamWorld(World):
                    "a fetch that overlaps a disconnect step (line pre-emption / injected stall) is two whole-entry stores in either order: "
                    "the entry the fetch leaves behind (observed when it ends) decides which; a slow disconnect step may have set its linger "
                    "mark anywhere between its start and its end (both times are kept)",
+                   "an iterator may be closed or dropped (finalised) by a thread other than its proxy's owner only when it is out of sync "
+                   "with a connected proxy (close_stream then goes through a temporary copy owned by the closing thread); otherwise the "
+                   "driver lets the owner do it (in sync it would use the proxy itself and fail the owner check - the caller's fault)",
                    "the background 'chatter' client (30% of the plans: one ping every POLLTIMEOUT/4 s on its own connection) is not part "
                    "of the model",
                    "when the server's disconnect step fails before reaching the clientDisconnect hook the connection has ended all the "
@@ -483,6 +486,12 @@ class StreamWorld(World):
                 "lifetime": lifetime, "linger": linger, "nproxies": nprox, "streams": streams, "ops": ops,
                 "commtimeout": commtimeout, "corr": corr, "chatter": chatter, "lines": lines, "p_line": p_line, "p_block": p_block, "p_stall": p_stall, "stall": stall,
                 "net": {"shuffle_select": rng.random() < 0.5}}
+        if rng.random() < 0.12:
+            # some iterators are closed / dropped (finalised) by a thread that is not the proxy's owner
+            for o in ops:
+                if o["op"] == "close" and rng.random() < 0.7:
+                    o["forget" if rng.random() < 0.3 else "helper"] = True
+            plan["helper_final"] = rng.choice(["close", "close", "forget"])
         if any(o.get("fault") for o in ops):
             plan["retries"] = rng.choice([0, 1, 2])             # config.MAX_RETRIES: must not apply to stream fetches
             plan["timeout"] = rng.choice([None, 1.0, 1.0])      # proxy timeout (virtual s); without it reply_timeout acts as reply_rst
@@ -626,7 +635,8 @@ class StreamWorld(World):
             kind, s = op["op"], op.get("s")
             rec = {"op": kind, "p": p, "s": s, "final": bool(op.get("final")), "inv": sched.stamp(), "t0": sched.now,
                    "was_connected": proxy._pyroConnection is not None,
-                   "conn_before": _conn_of(proxy._pyroConnection)}
+                   "conn_before": _conn_of(proxy._pyroConnection), "foreign": bool(op.get("_foreign")),
+                   "forget": bool(op.get("forget"))}
             if kind in ("next", "close"):
                 it = its[s]
                 rec["it_alive"] = it.proxy is not None
@@ -646,7 +656,11 @@ class StreamWorld(World):
                 elif kind == "next":
                     out = ("item", next(its[s]))
                 elif kind == "close":
-                    its[s].close()
+                    if op.get("forget"):
+                        del its[s]
+                        it = None       # the last reference goes: __del__ -> close() runs right here, in this (foreign) thread
+                    else:
+                        its[s].close()
                     out = ("ok",)
                 elif kind == "release":
                     proxy._pyroRelease()
@@ -798,9 +812,36 @@ class StreamWorld(World):
                           "connected": True, "was_connected": True, "conn_before": idx, "final": False})
             sched.ev("op", "drop", p, idx)
 
+        def foreign_ok(p, s_):
+            """may another thread than the proxy's owner close / drop this iterator?  Only when it would not touch the proxy itself:
+            out of sync with a connected proxy (close_stream then travels through a temporary copy made by the closing thread);
+            in sync it would use the proxy and fail the owner check - the caller's fault, also on the unchanged code"""
+            it_, px = its.get(s_), proxies[p]
+            return (it_ is not None and px is not None and it_.proxy is not None and px._pyroConnection is not None
+                    and it_.pyroseq != it_.proxy._pyroSeq)
+
+        def helper_close(p, op):
+            """one close / finalisation performed by a helper thread that is started for it and joined"""
+            fop = dict(op, _foreign=True)
+            ht = threading.Thread(target=lambda: exec_op(proxies[p], p, fop), name="helper")
+            ht.start()
+            ht.join(600.0)
+            if sched.sim_thread_of(ht).state != "done":
+                state["hung"] = op
+                return
+            ctx.probe("foreign_thread_finalize" if op.get("forget") else "foreign_thread_close")
+            if op.get("settle"):
+                sched.settle(5.0)
+
         def single(op):
             p = resolve(op)
             if p is None or state["hung"]:
+                return
+            if op["op"] == "close" and (op.get("helper") or op.get("forget")):
+                if foreign_ok(p, op["s"]):
+                    helper_close(p, op)
+                else:
+                    run_op(p, dict((k, v) for k, v in op.items() if k not in ("helper", "forget")))
                 return
             if op["op"] == "drop":
                 do_drop(p, op)
@@ -861,7 +902,11 @@ class StreamWorld(World):
         # ---- end of run: close everything, look; release everything, wait for every expiry plus housekeeping, look again
         if not state["hung"]:
             for s in sorted(its):
-                run_op(streams[s]["proxy"], {"op": "close", "s": s, "final": True})
+                fin = {"op": "close", "s": s, "final": True}
+                if plan.get("helper_final") and foreign_ok(streams[s]["proxy"], s):
+                    helper_close(streams[s]["proxy"], dict(fin, forget=(plan["helper_final"] == "forget")))
+                else:
+                    run_op(streams[s]["proxy"], fin)
             calm()
             poke()
             _obs("snap", tuple(sorted(daemon.streaming_responses)), "after-close")
@@ -1501,6 +1546,11 @@ class StreamWorld(World):
                     sl["it_alive"] = False
             elif kind == "close":
                 sl = slots[o["s"]]
+                if out[0] != "ok" and not sl["broken"]:
+                    bad(sl, "close-failed", "foreign-thread" if o.get("foreign") else "owner", "close() of the stream iterator%s ended %r: "
+                        "close_stream is not sent, the server keeps serving the closed stream"
+                        % (" from a thread that is not the proxy's owner (out of sync with the proxy: it has to use a temporary copy)"
+                           if o.get("foreign") else "", out))
                 if sl["it_alive"] and o["was_connected"] and not (dead_now and o["in_sync"]):
                     sl["closing"] = True
                     if not o["in_sync"]:
